@@ -42,6 +42,7 @@ def c01(ctx, case, io):
     """every served body hashes to the digest it is served under; a declared digest that does not
     match the bytes received is refused with a 4xx"""
     existing = {}       # repo -> digests known to be present (for the known benign exception)
+    sess1 = {}          # step index of the POST that opened a session -> bytes it has accepted
     for k, (st, res) in enumerate(zip(case["steps"], io["steps"])):
         if res.get("panic") or "status" not in res:
             continue
@@ -80,6 +81,19 @@ def c01(ctx, case, io):
                 if not real_hash_ok(d, body):
                     ctx.violation("manifest acknowledged under %s which is not the digest of the body sent" % d, hist(case, k, res), "C01:manifest-ack-digest")
                 ex.add(d)
+        if kind == "upost" and status == 202:
+            sess1[k] = dict(repo=repo, data=b"")
+        if kind in ("upatch", "uput"):
+            m_ = SID_RE.match(st["sid"])
+            s_ = sess1.get(int(m_.group(1))) if m_ else None
+            if s_ is not None and s_["repo"] == repo:
+                if kind == "upatch" and status == 202:
+                    s_["data"] += st["body"]
+                if kind == "uput" and status == 201:
+                    total = s_["data"] + st["body"]
+                    if gen.dvalid_py(st["digest"]) and not real_hash_ok(st["digest"], total):
+                        ctx.violation("upload completed (201) with declared digest %s, which the %d bytes received do not hash to" % (st["digest"][:19], len(total)),
+                                      hist(case, k, res), "C01:session-mismatch-accepted")
         if kind == "uput" and status == 201:
             ex.add(st["digest"])
         if kind == "snapshot":
